@@ -302,6 +302,8 @@ Section Render.
     | TKw KImport => [105; 109; 112; 111; 114; 116]
     | TKw KInto => [105; 110; 116; 111]
     | TAnn => [64]
+    | TKw KType => [116; 121; 112; 101]
+    | TStar => [42] | TLt => [60] | TGt => [62]
     end.
 
   (* is a blank written between two adjacent tokens? *)
@@ -312,6 +314,7 @@ Section Render.
   Definition space_between (a b : tok) : bool :=
     match a, b with
     | TNL _, _ | _, TNL _ | TAnn, _ => false
+    | TLt, _ | _, TGt => false
     | TKw _, _ => true
     | _, TClose _ => false
     | TOpen _, _ => false
